@@ -310,6 +310,27 @@ func TestCfgNew(t *testing.T) {
 				op := fmt.Sprintf("rx t=%d b=%s d=%d tend=%d probes=%s", trx, Hex(frame), obs.D, obs.Tend, obs.ProbesStr())
 				s.Op(op, obs.Answer(), true)
 				mon.Step(trx, frame, obs, op)
+				// C18: every configured value is in effect, nothing is silently dropped
+				st := mon.staticOf(mac)
+				var got net.IP
+				if len(obs.Tx) > 0 {
+					if rp := ParseReply(obs.Tx[0]); rp != nil && rp.Type == 2 {
+						got = rp.Yiaddr
+					}
+				}
+				inEffect := func(what, observed string) {
+					s.Find(Finding{Property: "C18", Signature: "not-in-effect:" + what, Stream: "cfgnew", What: "a configured value is not in effect: " + what,
+						Ops: []string{line, op}, Observed: observed, Config: fmt.Sprintf("%v", pc)})
+				}
+				if c.StaticOnly && st == nil && got != nil {
+					inEffect("static_only", "a client without static entry was offered "+got.String())
+				}
+				if st != nil && (got == nil || !got.Equal(st)) {
+					inEffect("static address", fmt.Sprintf("client %s configured for %s was offered %v", mac, st, got))
+				}
+				if st == nil && got != nil && c.DynFrom != nil && (IPU32(got) < IPU32(c.DynFrom) || IPU32(got) > IPU32(c.DynTo)) {
+					inEffect("dynamic_range", "offered "+got.String()+" outside "+c.DynFrom.String()+"-"+c.DynTo.String())
+				}
 			}
 			env.Stop()
 			synctest.Wait()
